@@ -65,7 +65,8 @@ fn up(x: f64, n: i64) -> f64 {
     f64::from_bits((x.to_bits() as i64 + n) as u64)
 }
 
-/// The 40-value slice of the C15 alphabet (all inside the GDSII real range, plus the two zeros).
+/// The 43-value slice of the C15 alphabet (inside the GDSII real range, plus the two zeros, plus three values
+/// below the normalised range that have an exact un-normalised representation).
 pub fn real_slice() -> &'static Vec<f64> {
     static C: OnceLock<Vec<f64>> = OnceLock::new();
     C.get_or_init(|| {
@@ -112,17 +113,28 @@ pub fn real_slice() -> &'static Vec<f64> {
             up(4096.0, -1),
             1.0 / 3.0,
             123456789.125,
+            // below the normalised range: exactly representable only with leading zero mantissa digits at exponent
+            // byte 0 (16^-66, 3 x 16^-70 negative, and the very smallest real 16^-78)
+            f64::from_bits(((1023 - 264) as u64) << 52),
+            -3.0 * f64::from_bits(((1023 - 280) as u64) << 52),
+            f64::from_bits(((1023 - 312) as u64) << 52),
         ];
         v.dedup_by(|a, b| a.to_bits() == b.to_bits());
-        assert_eq!(v.len(), 40);
+        assert_eq!(v.len(), 43);
         v
     })
 }
 
 /// raw 8 bytes of a double of the alphabet (exact; zero keeps its sign bit so that -0.0 survives `to_gds`)
 pub fn real_raw(x: f64) -> u64 {
+    let tiny = f64::from_bits(((1023 - 260) as u64) << 52); // 16^-65
     if x == 0.0 {
         x.to_bits() & (1u64 << 63)
+    } else if x.abs() < tiny {
+        // below the normalised range: exponent byte 0, mantissa = |x| * 2^312 (must be an exact integer)
+        let m = x.abs() * f64::from_bits(((1023 + 312) as u64) << 52);
+        assert!(m.fract() == 0.0 && m >= 1.0 && m < (1u64 << 52) as f64, "oracle domain: {x:e} has no exact un-normalised representation");
+        (x.to_bits() & (1u64 << 63)) | m as u64
     } else {
         ref_encode(x.to_bits())
     }
@@ -134,6 +146,14 @@ pub fn real_f64(r: u64) -> f64 {
             -0.0
         } else {
             0.0
+        }
+    } else if (r >> 56) & 0x7f == 0 && (r & 0x00ff_ffff_ffff_ffff) >> 52 == 0 {
+        // exponent byte 0 with leading zero digits: mantissa * 2^-312, exact
+        let v = (r & 0x00ff_ffff_ffff_ffff) as f64 * f64::from_bits(((1023 - 312) as u64) << 52);
+        if r >> 63 == 1 {
+            -v
+        } else {
+            v
         }
     } else {
         f64::from_bits(ref_decode(r))
